@@ -36,6 +36,16 @@ fn corpus(thorough: bool) -> Vec<(&'static str, Vec<HOp>)> {
             v.push(HOp::Commit);
             v
         }),
+        // committed frames, then ONE put (70 000 control bytes: no extractable text, one frame) whose log record does not fit the 64 KiB log: the put grows
+        // the embedded log in place (grow_wal_region) and returns — everything it wrote is fsynced, so every
+        // power-loss survivor after its return must open with the committed frame and the put (seed C03-1:
+        // offsets adjusted after the TOC rewrite was missed by the quick tier, which had no growth history)
+        ("wal-growth-by-one-put", vec![
+            HOp::Put { kind: 0, len: 200, seed: 301 },
+            HOp::Commit,
+            HOp::Put { kind: 2, len: 70000, seed: 302 },
+            HOp::Put { kind: 0, len: 100, seed: 303 },
+        ]),
     ];
     if thorough {
         v.push(("update-and-reopen", vec![
